@@ -963,8 +963,10 @@ enum cc_stat cc_array_iter_remove(CC_ArrayIter *iter, void **out)
 
     if (!iter->last_removed) {
         status = cc_array_remove_at(iter->ar, iter->index - 1, out);
-        if (status == CC_OK)
+        if (status == CC_OK) {
             iter->last_removed = true;
+            iter->index--;
+        }
     }
     return status;
 }
@@ -1087,6 +1089,7 @@ enum cc_stat cc_array_zip_iter_remove(CC_ArrayZipIter *iter, void **out1, void *
         cc_array_remove_at(iter->ar1, iter->index - 1, out1);
         cc_array_remove_at(iter->ar2, iter->index - 1, out2);
         iter->last_removed = true;
+        iter->index--;
         return CC_OK;
     }
     return CC_ERR_VALUE_NOT_FOUND;
